@@ -145,7 +145,8 @@ def check_doc(doc, obs, case):
         return
     data = stream.getvalue()
     obs.count('roundtrips_checked')
-    if data != want:
+    same = common.bytes_equivalent(data, want, layout)[0]
+    if not same:
         i = next((j for j in range(min(len(data), len(want)))
                   if data[j] != want[j]), min(len(data), len(want)))
         sec = [s for s in layout if s['hoff'] <= i][-1]
@@ -160,13 +161,13 @@ def check_doc(doc, obs, case):
         obs.violation('reader_rejects_own_output:%s:in:%s' % (
             type(exc).__name__, at.lstrip('.')), case, repr(exc)[:200])
         return
-    d = common.diff_records(expected, got)
-    if d is not None and data == want:
+    d = common.diff_records_tolerant(expected, got, data, want, layout)
+    if d is not None and same:
         obs.violation('reader_misreads:%s' % d[0], case, d[1])
     elif d is not None:
         obs.count('reader_diff_follows_writer_diff')
     # a text diff in the spelled codec is analysed whatever the spelling
-    if data == want and d is None:
+    if same and d is None:
         sp = case['spelling']
         le = case.get('line_endings')
         try:
